@@ -171,7 +171,6 @@ structure OCase where
   stable : Nat := 0
   /-- scanner: description carried by the last well-formed reply of each address -/
   lastGood : List (Nat × Nat × Option Nat) := []
-  staleReported : Bool := false
 
 structure AppsOState where
   ll : OCase := {}
@@ -235,10 +234,6 @@ def checkView (scanner : Bool) (c : OCase) : OCase × Option (String × String) 
       | some a => failC18 c s!"list_tracks: ident/master known for #{a} differ from its last diagnostics reply"
       | none => (c, none)
     else (c, none)
-  else if scanner && missing.isEmpty && extra.all (fun a => lookupA c.env a == some false) then
-    if c.staleReported then (c, none) else
-    ({ c with staleReported := true },
-      some ("K_C18_scanner_stale", s!"scanner still knows {showNatList extra} after two stable sweeps in which they answered, but not with a diagnostics response"))
   else failC18 c s!"list_tracks: after two stable sweeps events say {showNatList actual}, population is {showNatList expected}"
 
 def oracleCase (scanner : Bool) (c : OCase) (w : List String) (obs : String) : OCase × Option (String × String) :=
